@@ -17,6 +17,9 @@ import (
 
 type externalFn func(fr *frame, args []value) value
 
+// opaqueMark poisons a strings.Builder whose content became unknown.
+type opaqueMark struct{}
+
 type nativeObj struct {
 	kind string
 	data interface{}
@@ -273,11 +276,13 @@ func init() {
 		// ---- strings.Builder ----------------------------------------
 		"(*strings.Builder).WriteString": func(fr *frame, a []value) value {
 			s := (*a[0].(*value)).(structure)
+			buf, _ := s[1].([]value)
 			if _, ok := a[1].(ostring); ok {
-				fr.i.unsupported("strings.Builder.WriteString of opaque string")
+				// content becomes unknown: the builder is poisoned and String() is opaque
+				s[1] = append(buf, opaqueMark{})
+				return tuple{0, iface{}}
 			}
 			b, _ := strBytes(a[1])
-			buf, _ := s[1].([]value)
 			s[1] = append(buf, b...)
 			return tuple{len(b), iface{}}
 		},
@@ -289,12 +294,13 @@ func init() {
 		},
 		"(*strings.Builder).WriteRune": func(fr *frame, a []value) value {
 			s := (*a[0].(*value)).(structure)
+			buf, _ := s[1].([]value)
 			r, ok := a[1].(int32)
 			if !ok {
-				fr.i.unsupported("strings.Builder.WriteRune of symbolic rune")
+				s[1] = append(buf, opaqueMark{})
+				return tuple{1, iface{}}
 			}
 			str := string(rune(r))
-			buf, _ := s[1].([]value)
 			for k := 0; k < len(str); k++ {
 				buf = append(buf, str[k])
 			}
@@ -311,11 +317,21 @@ func init() {
 		"(*strings.Builder).String": func(fr *frame, a []value) value {
 			s := (*a[0].(*value)).(structure)
 			buf, _ := s[1].([]value)
+			for _, e := range buf {
+				if _, ok := e.(opaqueMark); ok {
+					return fr.i.freshOpaque("builder")
+				}
+			}
 			return mkString(buf)
 		},
 		"(*strings.Builder).Len": func(fr *frame, a []value) value {
 			s := (*a[0].(*value)).(structure)
 			buf, _ := s[1].([]value)
+			for _, e := range buf {
+				if _, ok := e.(opaqueMark); ok {
+					fr.i.unsupported("strings.Builder.Len after opaque content")
+				}
+			}
 			return len(buf)
 		},
 		"(*strings.Builder).Grow":  func(fr *frame, a []value) value { return nil },
@@ -354,6 +370,20 @@ func init() {
 		},
 		"internal/stringslite.Index": func(fr *frame, a []value) value { return fr.i.indexString(a[0], a[1]) },
 		"strings.Index":              func(fr *frame, a []value) value { return fr.i.indexString(a[0], a[1]) },
+		"strings.ContainsRune": func(fr *frame, a []value) value {
+			r := fr.i.indexRuneASCII(fr, a[0], a[1])
+			if r == nil {
+				return callBody(fr.i, fr, fr.fn, a)
+			}
+			return fr.i.binop(fr, token.GEQ, nil, r, 0)
+		},
+		"strings.IndexRune": func(fr *frame, a []value) value {
+			r := fr.i.indexRuneASCII(fr, a[0], a[1])
+			if r == nil {
+				return callBody(fr.i, fr, fr.fn, a)
+			}
+			return r
+		},
 		"strings.EqualFold": func(fr *frame, a []value) value {
 			s, ok1 := a[0].(string)
 			t, ok2 := a[1].(string)
@@ -892,4 +922,30 @@ func (i *interpreter) newError(msg string) value {
 	est := ep.Type("errorString").Type()
 	var obj value = structure{msg}
 	return iface{t: types.NewPointer(est), v: &obj}
+}
+
+// indexRuneASCII models strings.IndexRune(s, r) exactly for a concrete
+// all-ASCII s and a symbolic r (an ite chain, no forks). Returns nil when the
+// model does not apply.
+func (i *interpreter) indexRuneASCII(fr *frame, s value, r value) value {
+	cs, ok := s.(string)
+	if !ok {
+		return nil
+	}
+	rs, ok := r.(*Sym)
+	if !ok {
+		return nil
+	}
+	for k := 0; k < len(cs); k++ {
+		if cs[k] >= 0x80 {
+			return nil
+		}
+	}
+	p := i.ps.pool
+	res := p.BV(64, ^uint64(0))
+	bits := kindBits(rs.k)
+	for k := len(cs) - 1; k >= 0; k-- {
+		res = p.Ite(p.Eq(rs.t, p.BV(bits, uint64(cs[k]))), p.BV(64, uint64(k)), res)
+	}
+	return fromTerm(res, types.Int)
 }
